@@ -757,6 +757,49 @@ pub fn run(ctx: &'static Ctx) {
     ctx.st(tuples);
     ctx.engine("E3.constructor-booleans", json!({"programs": tuples, "covers": "MADT LAPIC/RINTC enable states, RIMT wire/IOMMU/mapping/root-complex booleans, HEST firmware-first and GLOBAL"}));
 
+    // option arguments (the value principle): every option-bearing entry of every table, every shape (the shapes say
+    // which options are invoked), every numeric argument through util::value_set crossed with the enumerated / boolean
+    // arguments: a flag that depends on the *value* handed to a neighbouring option is seen here
+    {
+        use crate::tables::Table;
+        let quick = ctx.quick();
+        let n = AtomicU64::new(0);
+        let mut per = vec![];
+        for t in crate::tables::all() {
+            let t: &dyn Table = t.as_ref();
+            let c = t.ctors(0)[0];
+            let progs = crate::props::tseq::value_programs(t, quick, true);
+            per.push(json!({"table": t.name(), "programs": progs.len()}));
+            progs.par_iter().for_each(|(name, ops)| {
+                n.fetch_add(1, Ordering::Relaxed);
+                let mut img = vec![];
+                crate::seq::refused_reset();
+                let r = catch(|| t.run(&c, ops, &mut |k, live, _h| if k == ops.len() { img = ser(live) }));
+                // documented refusals offered on purpose are skipped by the driver: the reference is fed what was accepted
+                let rf = crate::seq::refused_now();
+                let eff: Vec<Op> = ops.iter().enumerate().filter(|(i, _)| !rf.contains(i)).map(|(_, o)| *o).collect();
+                let want = t.reference(&c, &eff).image;
+                // an image that is exactly the reference with an open known finding applied (a Length matter recorded under
+                // C02-C04) is not a flag matter
+                if r.is_ok() && crate::props::tseq::quirk_of(t, &c, &eff, &img).is_some() {
+                    return;
+                }
+                if r.is_err() || !crate::tables::eq_judged(t, &eff, &img, &want) {
+                    let kind = ops.last().map(|o| t.kinds()[o.k as usize]).unwrap_or("new");
+                    ctx.violation_sized(
+                        &format!("opt:{}:{}:value", t.name(), kind),
+                        ops.len() as u64,
+                        || format!("{} {}: image differs from the specification at {:?}{}", t.name(), name, first_diff(&img, &want), r.as_ref().err().map(|m| format!(" (panicked: {})", m)).unwrap_or_default()),
+                        || crate::seq::replay_json(t, &c, ops),
+                    );
+                }
+            });
+        }
+        ctx.st(n.load(Ordering::Relaxed));
+        ctx.tr(n.load(Ordering::Relaxed));
+        ctx.engine("E3.option-argument-values", json!({"programs": n.load(Ordering::Relaxed), "tables": per}));
+    }
+
     // FADT: (a) flag closure, (b) mode closure
     let mut fa = vec![];
     if ctx.quick() {
@@ -798,4 +841,4 @@ pub fn run(ctx: &'static Ctx) {
 }
 
 pub const RULE: &str = "one stateright closure per option-bearing structure (all subsets, orders, repetitions reach a fixed point because options are idempotent), every transition executed on the real builder and compared with the whole-structure reference; all constructor boolean tuples; FADT: flag closure (quick: three 9-flag windows + all pairs; thorough: all 25 flags = 3*2^22 states (the two values of the 2-bit persistent-caches field are alternatives)) and mode closure. distinct = distinct structure images";
-pub const ASSUME: &[&str] = &["repeated enum-valued setters OR together (the property's semantics is 'union')", "argument values are one or two per valued option"];
+pub const ASSUME: &[&str] = &["repeated enum-valued setters OR together (the property's semantics is 'union')", "argument values of valued options range over util::value_set (whole domain up to 8 bits; thorough: up to 16), not all 2^32 / 2^64"];
